@@ -70,7 +70,7 @@ Definition wire16 (v : Z) : Z := v mod 65536.      (* Swap16IfLE of an int: low 
 Definition cursor_shape_hdr (c : caps) (cur : option cursor_geom) : hdr :=
   let e := if c_richcursor c then enc_RichCursor else enc_XCursor in
   match cur with
-  | Some g => if cu_empty g then (0, 0, 0, 0, e)
+  | Some g => if (cu_w g =? 0) || (cu_h g =? 0) || cu_empty g then (0, 0, 0, 0, e)     (* cu_empty: 1x1 and transparent *)
               else (wire16 (cu_xhot g), wire16 (cu_yhot g), wire16 (cu_w g), wire16 (cu_h g), e)
   | None => (0, 0, 0, 0, e)
   end.
